@@ -136,6 +136,9 @@ func rrCase[R any](t *rapid.T, withResult bool) {
 		noHook := rapid.IntRange(0, 3).Draw(t, "withoutOnListenForReplyFinished") == 0
 		// replies of OTHER kinds of requests on the shared reply topic: their results need not decode into this caller's type
 		foreign := rapid.SliceOfN(rapid.SampledFrom([]string{`12345`, `"text"`, `[1,2]`, `{"CmdID":7,"Attempt":"x"}`, `not json`, ``}), 0, 6).Draw(t, "foreignNotifications")
+		// sustained foreign traffic: other requests keep being answered on the shared topic for longer than the timeout;
+		// the timeout of THIS request runs from its start all the same
+		sustained := timeout != nil && *timeout > 0 && !noHook && rapid.IntRange(0, 7).Draw(t, "sustainedForeignTraffic") == 0
 		specs := make([]callerSpec, nCallers)
 		for i := range specs {
 			b := rapid.SampledFrom([]int{0, 0, 1, 1, 2, 2, 3, 5}).Draw(t, "behaviour")
@@ -318,6 +321,12 @@ func rrCase[R any](t *rapid.T, withResult bool) {
 			}
 			return false
 		}
+		finishedSoonAfterTimeout := func(id string) bool {
+			if !sustained {
+				return true
+			}
+			return lib.WaitUntil(2*time.Second, func() bool { w.mu.Lock(); defer w.mu.Unlock(); return w.finished[id] >= 1 })
+		}
 		finishedOnce := func(id string) bool {
 			if noHook {
 				return true
@@ -350,6 +359,21 @@ func rrCase[R any](t *rapid.T, withResult bool) {
 				m.Metadata[requestreply.HasErrorMetadataKey] = "0"
 				m.Metadata["cmd"] = "a foreign request"
 				gc.Publish("reply", m)
+			}
+			if sustained {
+				stop := time.After(*timeout + 2500*time.Millisecond)
+				for k := 0; ; k++ {
+					select {
+					case <-stop:
+						return
+					case <-time.After(4 * time.Millisecond):
+					}
+					m := message.NewMessage(fmt.Sprintf("foreign-sustained-%d", k), []byte(`{"CmdID":"someone else","Attempt":1}`))
+					m.Metadata[requestreply.OperationIDMetadataKey] = fmt.Sprintf("foreign-sustained-operation-%d", k)
+					m.Metadata[requestreply.HasErrorMetadataKey] = "0"
+					m.Metadata["cmd"] = "a foreign request"
+					gc.Publish("reply", m)
+				}
 			}
 		}()
 		var wg sync.WaitGroup
@@ -429,6 +453,9 @@ func rrCase[R any](t *rapid.T, withResult bool) {
 						time.Sleep(*timeout)
 					}
 					time.Sleep(5 * time.Millisecond)
+					if !finishedSoonAfterTimeout(id) {
+						bad("listener: the listener of %s is still running 2s after its %v timeout passed while only replies of OTHER requests kept arriving on the shared topic", id, *timeout)
+					}
 					if !finishedOnce(id) {
 						bad("listener: OnListenForReplyFinished never ran for %s after the timeout passed (caller not reading; up to %d replies were produced meanwhile)", id, want)
 					}
@@ -439,6 +466,9 @@ func rrCase[R any](t *rapid.T, withResult bool) {
 						time.Sleep(*timeout)
 					}
 					time.Sleep(5 * time.Millisecond)
+					if !finishedSoonAfterTimeout(id) {
+						bad("listener: the listener of %s is still running 2s after its %v timeout passed while only replies of OTHER requests kept arriving on the shared topic", id, *timeout)
+					}
 					if !finishedOnce(id) {
 						bad("listener: OnListenForReplyFinished never ran for %s after the timeout passed (caller not reading; %d replies were produced)", id, want)
 					}
